@@ -43,7 +43,9 @@ func fnClientUnblock(ctx *cmdContext, args map[string]any) (output respValue, er
 	id := args["client-id"].(int64)
 	_, isError := args["unblock-type.error"]
 
+	simBeforeLock(&clientsMu, "clientsMu")
 	clientsMu.Lock()
+	defer simAfterUnlock(&clientsMu, "clientsMu")
 	defer clientsMu.Unlock()
 
 	client, exists := clients[id]
